@@ -332,7 +332,9 @@ def main(argv):
     f_dis = sum(1 for r in f_results if r["ok"])
     for r in f_results + fb_results:
         if not r["ok"]:
-            if r.get("checker_error"):
+            if r.get("undecided"):
+                undecided.append(f"{r['name']}: {r.get('detail')}")
+            elif r.get("checker_error"):
                 errors.append(f"{r['name']}: {r.get('detail')}")
             else:
                 violations.append({"obligation": r["name"], "kind": "bounded" if r.get("bounded") else "finite", "detail": r.get("detail"),
